@@ -493,6 +493,10 @@ impl MasterSession {
             return Err(TaskError::RejectedByIin2(response.header.iin));
         }
 
+        if response.header.control.con {
+            self.confirm_solicited(io, destination, seq, writer).await?;
+        }
+
         Ok(Some(response))
     }
 
